@@ -579,11 +579,15 @@ KernelConfirmable(s, w, T) ==
         /\ ~e.conf /\ ~(e.db # 0 /\ e.cr # 0) /\ e.kern # ""
         /\ KernelOnChain(s, e.kern, MaxOf(e.minh, 0), Height(s))}
 RECURSIVE KernelSteps(_, _, _, _)
+\* the stored entry is re-read under the lock and confirmed only if it is still the
+\* same outstanding transaction (fix: C20 stale write-back); else nothing is written
 KernelSteps(s, w, snap, todo) ==
   IF todo = {} THEN <<>>
   ELSE LET t == CHOOSE x \in todo : \A y \in todo : snap[x].id <= snap[y].id
-           s1 == [s EXCEPT !.w[w].txs = Put(@, t, [snap[t] EXCEPT !.conf = TRUE])]
-       IN <<s1>> \o KernelSteps(s1, w, snap, todo \ {t})
+           ok == /\ t \in DOMAIN s.w[w].txs
+                 /\ s.w[w].txs[t].ty = snap[t].ty /\ ~s.w[w].txs[t].conf /\ s.w[w].txs[t].kern = snap[t].kern
+           s1 == IF ok THEN [s EXCEPT !.w[w].txs[t].conf = TRUE] ELSE s
+       IN (IF ok THEN <<s1>> ELSE <<>>) \o KernelSteps(s1, w, snap, todo \ {t})
 
 \* ======================================================================
 \* Scan body (scan::scan) - restore / repair against the chain.
